@@ -139,6 +139,34 @@ func individuallyAdmissible(w *refalloc.World, svc *v1.Service, ip net.IP) (bool
 	return true, false
 }
 
+// setAdmissible: the recorded address set as a whole is one the service is entitled to keep under w:
+// every address individually admissible (and not ambiguous), a pair from one pool, complete for the
+// family policy (one family suffices only under PreferDualStack).
+func setAdmissible(w *refalloc.World, svc *v1.Service, ips []net.IP) bool {
+	if len(ips) == 0 || len(ips) > 2 {
+		return false
+	}
+	for _, ip := range ips {
+		if ip == nil {
+			return false
+		}
+		if a, amb := individuallyAdmissible(w, svc, ip); !a || amb {
+			return false
+		}
+	}
+	if len(ips) == 2 {
+		o1, o2 := w.Owners(ips[0]), w.Owners(ips[1])
+		if len(o1) != 1 || len(o2) != 1 || o1[0] != o2[0] || (ips[0].To4() == nil) == (ips[1].To4() == nil) {
+			return false
+		}
+	}
+	n4, n6, prefer, ok := refalloc.Families(svc)
+	if !ok || (len(ips) == 1 && n4 && n6 && !prefer) {
+		return false
+	}
+	return true
+}
+
 func (o *allocOracle) after(sys verifrt.System, hist []verifrt.Event, ev verifrt.Event, preI interface{}, isNew bool) {
 	s := sys.(*ctlSys)
 	pre := preI.(*preSnap)
@@ -306,6 +334,10 @@ func (o *allocOracle) after(sys verifrt.System, hist []verifrt.Event, ev verifrt
 					}
 					for _, rip := range ipsOf(st) {
 						if rip.Equal(ip) {
+							// only an address the other service was entitled to keep can be "stolen"
+							if !setAdmissible(w, svcs[ok2], ipsOf(st)) {
+								continue
+							}
 							if okc, _ := refalloc.ShareCompatible(svc, svcs[ok2]); !okc && s.refSvcs[ok2] == userPart(svcs[ok2]) {
 								o.violate(s, hist, "C06 stolen: service without recorded address obtained an address recorded for another service",
 									fmt.Sprintf("%s had no address at the crash and now holds %s, which was recorded for %s", k, ip, ok2))
@@ -333,24 +365,7 @@ func (o *allocOracle) keepOracle(s *ctlSys, hist []verifrt.Event, prop string, s
 			continue
 		}
 		refIPs := ipsOf(ref)
-		adm := true
-		for _, ip := range refIPs {
-			a, ambiguous := individuallyAdmissible(w, svc, ip)
-			if !a || ambiguous {
-				adm = false
-			}
-		}
-		// the pair must come from one pool
-		if len(refIPs) == 2 {
-			o1, o2 := w.Owners(refIPs[0]), w.Owners(refIPs[1])
-			if len(o1) != 1 || len(o2) != 1 || o1[0] != o2[0] {
-				adm = false
-			}
-		}
-		if n4, n6, prefer, okf := refalloc.Families(svc); !okf || (len(refIPs) == 1 && n4 && n6 && !prefer) {
-			adm = false
-		}
-		if !adm {
+		if !setAdmissible(w, svc, refIPs) {
 			continue
 		}
 		// contested: another service recorded on the same address at the reference point and not share-compatible
@@ -366,7 +381,7 @@ func (o *allocOracle) keepOracle(s *ctlSys, hist []verifrt.Event, prop string, s
 						if other == nil {
 							continue
 						}
-						if c, _ := refalloc.ShareCompatible(svc, other); !c {
+						if c, _ := refalloc.ShareCompatible(svc, other); !c || !refalloc.SamePolicyClass(svc, other) {
 							contested = true
 						}
 					}
@@ -411,7 +426,15 @@ func (o *allocOracle) keepOracle(s *ctlSys, hist []verifrt.Event, prop string, s
 					continue
 				}
 				takenBy = "other-service"
-				if _, _, prefer, _ := refalloc.Families(svcs[h]); prefer && len(ipsOf(s.refStatuses[h])) == 1 {
+				hRef := ipsOf(s.refStatuses[h])
+				hAdm := setAdmissible(w, svcs[h], hRef)
+				switch {
+				case len(hRef) == 0:
+					takenBy = "service-without-recorded-address"
+				case !hAdm || s.refSvcs[h] != userPart(svcs[h]):
+					takenBy = "service-reallocated-in-the-first-pass-because-its-own-recorded-address-is-no-longer-admissible"
+				}
+				if _, _, prefer, _ := refalloc.Families(svcs[h]); prefer && len(hRef) == 1 && hAdm {
 					takenBy = "preferdualstack-service-topping-up-its-second-family"
 				}
 			}
@@ -420,7 +443,8 @@ func (o *allocOracle) keepOracle(s *ctlSys, hist []verifrt.Event, prop string, s
 		if strings.HasPrefix(after, "crash") {
 			after = "restart"
 		}
-		sig := fmt.Sprintf("%s %s-address: unchanged service with admissible address did not keep it after=%s taken-by=%s", prop, what, after, takenBy)
+		_ = what
+		sig := fmt.Sprintf("%s recorded address not kept: unchanged service with admissible address did not keep it after=%s taken-by=%s", prop, after, takenBy)
 		o.violate(s, hist, sig, fmt.Sprintf("%s had %q at the reference point (%s) and has %q now; statuses %v", k, ref, s.refKind, now, statusHold))
 	}
 }
@@ -774,7 +798,14 @@ func runAlloc(t *testing.T, prop string) {
 		if len(mine) == 0 {
 			continue
 		}
-		b := &verifrt.BFS{New: func() verifrt.System { return newCtlSys(u) }, Roots: mine, MaxUser: depth, Horizon: 70,
+		maxFault := 0
+		if prop == "C06" {
+			maxFault = 1
+			if thorough || u.Name == "reconf" {
+				maxFault = 2
+			}
+		}
+		b := &verifrt.BFS{New: func() verifrt.System { return newCtlSys(u) }, Roots: mine, MaxUser: depth, MaxFault: maxFault, Horizon: 90,
 			Before: o.before, After: o.after, Res: res, Deadline: deadline}
 		// the root's own first edge is checked by replaying it with the oracle
 		for _, r := range mine {
@@ -786,6 +817,7 @@ func runAlloc(t *testing.T, prop string) {
 	res.Count("traces_validated_against_impl", res.Counters["transitions"])
 	res.Info["depth_user_events"] = depth
 	res.Info["menus"] = menus
+	res.Info["max_fault_events"] = "1 (2 in universe reconf and in the thorough tier)"
 	res.Count("distinct_nontrivial", res.Counters["states"])
 }
 
